@@ -343,6 +343,9 @@ class PlaybackController:
 
         backend = self._get_backend(pending_tl_track)
         if not backend:
+            # Forget the track we failed to switch to, so that it is not
+            # promoted to current track by a later stream change.
+            self._pending_tl_track = None
             return False
 
         # This must happen before prepare_change gets called, otherwise the
@@ -354,12 +357,14 @@ class PlaybackController:
 
         try:
             if not backend.playback.change_track(pending_tl_track.track).get():
+                self._pending_tl_track = None
                 return False
         except Exception:
             logger.exception(
                 "%s backend caused an exception.",
                 backend.actor_ref.actor_class.__name__,
             )
+            self._pending_tl_track = None
             return False
 
         # TODO: Wrap backend calls in error handling.
